@@ -216,6 +216,35 @@ def dbIdle (st : DbSt) (rest : List String) : DbSt × String :=
   (st', if pcs.isNone then joinWith " " ([out, "o=" ++ o, "cur=" ++ toString comp'.minorLevel])
         else out ++ " pick-mismatch model=" ++ showCS pcs comp'.minorLevel)
 
+/-- the compaction commit of the real task: the model's pick on the snapshot the real compactor saw is compared, the
+real change set is applied -/
+def dbCommit (st : DbSt) (lv : String) (rest : List String) : DbSt × String :=
+  let rm := Driver.C07.parseIds ((field "rm=" rest).getD "-")
+  let addS := (field "add=" rest).getD "none"
+  let runs := if addS == "none" then [] else (addS.splitOn "|").map Driver.C07.parseRun
+  let l := natOr (lv.drop 1).toString
+  let real : ChangeSet := { rm := rm, lvl := l, add := runs }
+  -- the model's pick on the snapshot the real compactor saw
+  let (pred, comp') := match st.begun with
+    | some (o, lv0, c0) => compact c0 lv0 (parseOracle o (runs.map (·.length)))
+    | none => (none, st.comp)
+  let s := st.c07.s
+  let safeNow := safeCS s.levels rm l runs && decide (SafeCS s.levels rm l runs)
+  let c07' : Driver.C07.St :=
+    match Driver.C07.applyActs st.c07 [.compact rm l runs] with
+    | some x => x
+    | none => { st.c07 with s := { s with levels := addAt (removeIds rm s.levels) l (mkTables s.nextId runs),
+                                          nextId := s.nextId + runs.length } }
+  let st' := { st with c07 := c07', comp := comp', begun := none, unsafeSeen := st.unsafeSeen || !safeNow }
+  let realS := showCS (some real) comp'.minorLevel
+  let predS := showCS pred comp'.minorLevel
+  let lineReal := "compact L" ++ toString l ++ " rm=" ++ ((field "rm=" rest).getD "-") ++ " add=" ++ addS ++
+    " cur=" ++ toString comp'.minorLevel
+  (st', if realS == predS then lineReal else lineReal ++ " pick-mismatch model=" ++ predS)
+
+def showIdLevels (L : Levels) : String :=
+  joinWith "/" (L.map fun l => if l.isEmpty then "-" else joinWith "," (l.map fun t => toString t.id))
+
 def stepDB (st : DbSt) (ws : List String) : DbSt × String :=
   let (op, hint) := splitHint ws
   match op, hint with
@@ -233,7 +262,22 @@ def stepDB (st : DbSt) (ws : List String) : DbSt × String :=
     (st', if pcs.isSome then joinWith " " (["cf", out1, "o=" ++ o, "cur=" ++ toString comp'.minorLevel, out2])
           else "cf pick-mismatch model=none")
   | ["bg", "cf"], "compactidle" :: rest => dbIdle st rest
-  | ["bg", "cf"], [x] => (st, x)
+  | ["bg", "cf"], _ =>
+    -- nothing to overlap, or one of the two tasks is past its begin: decided by the model, never echoed
+    if st.c07.compactQ == 0 || st.c07.flushQ == 0 then (st, "none")
+    else if st.c07.s.flushing.isSome || st.begun.isSome then (st, "skip")
+    else (st, "bad-hint")
+  | ["bg", "race"], "race" :: "flushcommit" :: n :: "compact" :: lv :: rest =>
+    -- the flush commit and the compaction commit were released together: whatever order the lock gave them, the level
+    -- list holds both effects (`safe_commutes_with_flush`); the model commits the flush first
+    if st.c07.s.flushing.isNone || st.begun.isNone then (st, "skip") else
+    if st.c07.compactQ ≥ 4 then (st, "queue-full") else
+    let (c07a, out1) := Driver.C07.step st.c07 ["bg", "f", "##", "flushcommit", n]
+    let (st2, out2) := dbCommit { st with c07 := c07a } lv (rest.filter (fun w => !w.startsWith "ids="))
+    (st2, joinWith " " ["race", out1, out2, "ids=" ++ showIdLevels st2.c07.s.levels])
+  | ["bg", "race"], _ =>
+    if st.c07.s.flushing.isNone || st.begun.isNone then (st, "skip")
+    else if st.c07.compactQ ≥ 4 then (st, "queue-full") else (st, "bad-hint")
   | ["bg", "c"], "compactidle" :: rest => dbIdle st rest
   | ["bg", "c"], "compactbegin" :: rest =>
     let o := (field "o=" rest).getD ""
@@ -243,29 +287,7 @@ def stepDB (st : DbSt) (ws : List String) : DbSt × String :=
     let st' := { st with c07 := c07', begun := some ("o=" ++ o, st.c07.s.levels, st.comp) }
     (st', if pcs.isSome then joinWith " " ([out, "o=" ++ o, "cur=" ++ toString comp'.minorLevel])
           else out ++ " pick-mismatch model=none")
-  | ["bg", "c"], "compact" :: lv :: rest =>
-    let rm := Driver.C07.parseIds ((field "rm=" rest).getD "-")
-    let addS := (field "add=" rest).getD "none"
-    let runs := if addS == "none" then [] else (addS.splitOn "|").map Driver.C07.parseRun
-    let l := natOr (lv.drop 1).toString
-    let real : ChangeSet := { rm := rm, lvl := l, add := runs }
-    -- the model's pick on the snapshot the real compactor saw
-    let (pred, comp') := match st.begun with
-      | some (o, lv0, c0) => compact c0 lv0 (parseOracle o (runs.map (·.length)))
-      | none => (none, st.comp)
-    let s := st.c07.s
-    let safeNow := safeCS s.levels rm l runs && decide (SafeCS s.levels rm l runs)
-    let c07' : Driver.C07.St :=
-      match Driver.C07.applyActs st.c07 [.compact rm l runs] with
-      | some x => x
-      | none => { st.c07 with s := { s with levels := addAt (removeIds rm s.levels) l (mkTables s.nextId runs),
-                                            nextId := s.nextId + runs.length } }
-    let st' := { st with c07 := c07', comp := comp', begun := none, unsafeSeen := st.unsafeSeen || !safeNow }
-    let realS := showCS (some real) comp'.minorLevel
-    let predS := showCS pred comp'.minorLevel
-    let lineReal := "compact L" ++ toString l ++ " rm=" ++ ((field "rm=" rest).getD "-") ++ " add=" ++ addS ++
-      " cur=" ++ toString comp'.minorLevel
-    (st', if realS == predS then lineReal else lineReal ++ " pick-mismatch model=" ++ predS)
+  | ["bg", "c"], "compact" :: lv :: rest => dbCommit st lv rest
   | _, _ =>
     let (c07', out) := Driver.C07.step st.c07 ws
     ({ st with c07 := c07' }, out)
